@@ -122,6 +122,7 @@ Definition ae_body_of (e : env) (from : nid) (m : msg) (c : N) (s : S) : S :=
     if done && load_dump_ok s then
       let s := send_next_idx from None false true (load_dump e true s) in
       ae_commit c (Some (last_idx (log (nd s)))) s
+    else if done then ae_commit c None (load_dump e true s)
     else ae_commit c None s
   | _ => s
   end.
@@ -243,6 +244,7 @@ Lemma fr_load_dump e cl s : π (nd (load_dump e cl s)) = π (nd s).
 Proof.
   unfold load_dump.
   destruct (stored (sr (nd s))) as [[sn|]|]; try reflexivity.
+  destruct (cl && _); [fr|].
   destruct (self_ver (nd s) <? s_ver sn); [reflexivity|].
   match goal with |- π (nd (if dyn (cf e) then update_cluster ?l ?s1 else ?s2)) = _ =>
     assert (E : π (nd s2) = π (nd s)) end.
@@ -441,7 +443,7 @@ Proof.
     destruct (assemble_entry _); [|frw; reflexivity].
     rewrite fr_ae_regular. frw. reflexivity.
   - pose proof (fr_set_transmission p s) as G; destruct (set_transmission p s) as [s2 dn].
-    cbn [fst] in G. destruct (dn && _); rewrite fr_ae_commit; frw; rewrite ?fr_load_dump, G; reflexivity.
+    cbn [fst] in G. destruct (dn && _); [|destruct dn]; rewrite fr_ae_commit; frw; rewrite ?fr_load_dump, G; reflexivity.
 Qed.
 
 Lemma fr_ae_pre0 e from t c s : π (nd (ae_pre e from t c s)) = π (nd s).
